@@ -28,6 +28,9 @@ type Rule struct {
 	// the reference model expects.
 	FailKind int    `json:"fk,omitempty"`
 	TagCond  string `json:"tagcond,omitempty"`
+	// NoSal: the rule header has no salience clause (Sal is 0 then); NoDesc: no description.
+	NoSal  bool `json:"nosal,omitempty"`
+	NoDesc bool `json:"nodesc,omitempty"`
 }
 
 // Input of a validation.
